@@ -98,7 +98,11 @@ Theorem C05_exemptions_exact_partial : forall pc f,
 Proof. intros pc f G. apply should_have_kwargs_exempt; assumption. Qed.
 Print Assumptions C05_exemptions_exact_partial.
 
-(* exempt callables are never rejected for positional arguments *)
+(* "stay positionally callable": what is proved is that the keyword test lets every call of an exempt callable pass
+   (assert_uses_kwargs = Ok: no PedanticCallWithArgsException can come from it).  That the positional call then behaves like the
+   undecorated one is a C04 matter: positional calls of exempt callables are in the transparency ORACLE of bin/check C04
+   (Spec.PedanticSpec.c04_args_ok) and are exercised by the correspondence, they are not covered by a theorem (the transparency
+   theorem of C04 is about keyword calls); closed instances: the Examples C05_exempt_positional_call_transparent below. *)
 Theorem C05_exempt_stays_positional : forall pc f c,
   pc_good pc = true -> should_have_kwargs pc f = false -> assert_uses_kwargs pc f c = Ok tt.
 Proof. intros pc f c G H. rewrite (assert_uses_kwargs_ref pc G), H. reflexivity. Qed.
@@ -179,6 +183,22 @@ Proof.
   split; reflexivity.
 Qed.
 Print Assumptions C05_pedantic_text_refuted.
+
+(* exempt callables called positionally, on the model of the whole library: an operator method and a required parameter *)
+Example C05_exempt_positional_call_transparent :
+  let add := method "__add__" self_name [par b_ PosOrKw AInt None] (tflags false false false false 0) in
+  let c := poscall [k_inst] [VInt 1%Z] [] in
+  exempt add = true /\ c04_call_ok ctx0 add c = true
+  /\ run1 ctx0 add c (returns (VInt 1%Z)) = twin add c (returns (VInt 1%Z))
+  /\ run1 ctx0 add (poscall [k_inst] [vx] []) (returns (VInt 1%Z)) = (Raise PTypeCheckC, []).
+Proof. repeat split; reflexivity. Qed.
+
+(* observation (not claimed by C05, outside the four kinds of supplied values of C03): a DEFAULTED parameter of an exempt method
+   passed positionally is not checked - its default is checked in its place: k('x') on __call__(self, x: int = 0) runs the body *)
+Example C05_observation_exempt_defaulted_positional_unchecked :
+  let call := method "__call__" self_name [par b_ PosOrKw AInt (Some (VInt 0%Z))] (tflags false false false false 0) in
+  fst (run1 ctx0 call (poscall [k_inst] [vx] []) (returns (VInt 1%Z))) = Ok (VInt 1%Z).
+Proof. reflexivity. Qed.
 
 (* ---------------- the hypotheses are satisfiable ---------------- *)
 Example C05_guards_satisfiable :
